@@ -126,43 +126,25 @@ func (b *baseExecutor) traversalArgs(node ast.Node, argsIndex *[]int32) {
 	if node == nil {
 		return
 	}
-	switch node.(type) {
-	case *ast.BinaryOperationExpr:
-		expr := node.(*ast.BinaryOperationExpr)
-		b.traversalArgs(expr.L, argsIndex)
-		b.traversalArgs(expr.R, argsIndex)
-		break
-	case *ast.BetweenExpr:
-		expr := node.(*ast.BetweenExpr)
-		b.traversalArgs(expr.Expr, argsIndex)
-		b.traversalArgs(expr.Left, argsIndex)
-		b.traversalArgs(expr.Right, argsIndex)
-		break
-	case *ast.PatternInExpr:
-		b.traversalArgs(node.(*ast.PatternInExpr).Expr, argsIndex)
-		exprs := node.(*ast.PatternInExpr).List
-		for i := 0; i < len(exprs); i++ {
-			b.traversalArgs(exprs[i], argsIndex)
-		}
-		break
-	case *ast.ParenthesesExpr:
-		b.traversalArgs(node.(*ast.ParenthesesExpr).Expr, argsIndex)
-		break
-	case *ast.UnaryOperationExpr:
-		b.traversalArgs(node.(*ast.UnaryOperationExpr).V, argsIndex)
-		break
-	case *ast.PatternLikeExpr:
-		expr := node.(*ast.PatternLikeExpr)
-		b.traversalArgs(expr.Expr, argsIndex)
-		b.traversalArgs(expr.Pattern, argsIndex)
-		break
-	case *ast.IsNullExpr:
-		b.traversalArgs(node.(*ast.IsNullExpr).Expr, argsIndex)
-		break
-	case *test_driver.ParamMarkerExpr:
-		*argsIndex = append(*argsIndex, int32(node.(*test_driver.ParamMarkerExpr).Order))
-		break
+	// every placeholder below the node, in the order of the text, wherever it stands: under an operator, in a
+	// list, inside a function call, a CASE, a sub-query
+	node.Accept(paramMarkerCollector{argsIndex: argsIndex})
+}
+
+// paramMarkerCollector notes the position of every placeholder it comes across
+type paramMarkerCollector struct {
+	argsIndex *[]int32
+}
+
+func (c paramMarkerCollector) Enter(node ast.Node) (ast.Node, bool) {
+	if marker, ok := node.(*test_driver.ParamMarkerExpr); ok {
+		*c.argsIndex = append(*c.argsIndex, int32(marker.Order))
 	}
+	return node, false
+}
+
+func (c paramMarkerCollector) Leave(node ast.Node) (ast.Node, bool) {
+	return node, true
 }
 
 func (b *baseExecutor) buildRecordImages(rowsi driver.Rows, tableMetaData *types.TableMeta, sqlType types.SQLType) (*types.RecordImage, error) {
